@@ -1,10 +1,261 @@
-"""Stateful scenarios of C18 (tee with lock, caches, ExitStack, scoped_iter) - filled in below."""
-NEED = ()
+"""Stateful scenarios of C18: tee with lock, lru_cache, cached_property with lock, ExitStack, scoped_iter."""
+from __future__ import annotations
+
+import random
+
+import asyncstdlib as A
+
+from ..loop import CTX, drive, Cancel, Suspend, rr_strategy
+from ..probes import Item, SrcState, Plan, make_source, VLock
+from . import C08, C11, C12, C14
+
+NEED = ("special_tee_cancellations", "special_lru_cancellations", "special_cached_property_cancellations",
+        "special_exitstack_cancellations", "special_scoped_iter_cancellations")
 
 
 def cases(tier, seed, shard, nshards, rng):
-    return iter(())
+    n = {"quick": 260, "thorough": 5000}[tier] // nshards
+    for i in range(max(5, n)):
+        kind = ["tee", "lru", "cached_property", "exitstack", "scoped"][i % 5]
+        if kind == "tee":
+            yield {"kind": "tee", "len": rng.randint(0, 4), "n": rng.choice([2, 3]), "susp": rng.choice([1, 2]),
+                   "flav": rng.choice(["async_class", "async_gen"]), "order": [rng.randrange(3) for _ in range(rng.randint(1, 8))]}
+        elif kind == "lru":
+            nkeys = rng.randint(1, 3)
+            yield {"kind": "lru", "c11": {"mode": "rr", "maxsize": rng.choice([None, 1, 2]),
+                                          "tasks": [[["call", rng.randrange(nkeys)] if rng.random() < 0.85 else ["clear"]
+                                                     for _ in range(rng.randint(1, 5))]],
+                                          "susp": rng.choice([1, 2]), "fail": [], "cancel_task": 0, "runs": 1, "seed": 0,
+                                          "epilogue": [rng.randrange(nkeys + 1) for _ in range(rng.randint(3, 6))]}}
+        elif kind == "cached_property":
+            yield {"kind": "cached_property",
+                   "c12": {"kind": "conc", "mode": "rr", "lock": True, "awaiters": [rng.choice(["direct", "stored"]) for _ in range(rng.choice([1, 2, 3]))],
+                           "repeat": rng.choice([1, 2]), "susp": rng.choice([1, 2]), "fail": [], "deleter": None,
+                           "cancel_task": 0, "runs": 1, "seed": 0}}
+        elif kind == "exitstack":
+            m = rng.randint(1, 4)
+            yield {"kind": "exitstack", "spec": [[rng.choice(C14.KINDS), rng.choice(C14.BEHS)] for _ in range(m)],
+                   "body": rng.random() < 0.4, "susp": rng.choice([1, 2]), "body_susp": rng.choice([0, 1])}
+        else:
+            yield {"kind": "scoped", "c08": {"block": C08.gen_block(rng, 1), "flav": rng.choice(["async_class", "async_gen"]),
+                                            "keys": [rng.randrange(4) for _ in range(rng.randint(1, 7))]}}
+
+
+# ---------------------------------------------------------------------------
+
+def run_tee(case, stats):
+    viols, sigs = [], []
+
+    def execute(cancel_at):
+        CTX.reset()
+        st = SrcState(0, [Item(i, (0, i)) for i in range(case["len"])], Plan(case["susp"]), log=False)
+        src = make_source(st, case["flav"])
+        lock = VLock("tee")
+        exc = Cancel() if cancel_at is not None else None
+        out = {}
+        advanced = set()
+
+        async def main():
+            handle = A.tee(src, case["n"], lock=lock)
+            try:
+                for c in case["order"]:
+                    c %= case["n"]
+                    advanced.add(c)
+                    try:
+                        await handle[c].__anext__()
+                    except StopAsyncIteration:
+                        pass
+                out["end"] = "done"
+            except Cancel as got:
+                out["end"] = "cancel" if got is exc else "foreign-cancel"
+            finally:
+                await handle.aclose()
+
+        drive(main(), cancel_at=cancel_at, cancel_exc=exc)
+        return st, lock, out, advanced, CTX.suspensions, list(CTX.foreign)
+
+    st, lock, out, adv, nsus, _ = execute(None)
+    evals = 0
+    for i in range(1, nsus + 1):
+        st, lock, out, advanced, _, foreign = execute(i)
+        evals += 1
+        stats["special_tee_cancellations"] += 1
+        sigs.append(("tee", str(case), i))
+        head = f"tee(lock) {case} cancel@{i}/{nsus}"
+        if foreign:
+            viols.append({"key": "tee/foreign-suspension", "msg": f"{head}: {foreign[0]}"})
+        if out.get("end") != "cancel":
+            viols.append({"key": "tee/cancel-not-propagated", "msg": f"{head}: ended {out.get('end')}"})
+        if lock.owner is not None:
+            viols.append({"key": "tee/lock-held-after-cancel", "msg": f"{head}: lock owned by {lock.owner}"})
+        if not st.released():
+            key = "tee/unstarted-child-never-deregisters" if len(advanced) < case["n"] else "tee/leak-after-cancel"
+            viols.append({"key": key, "msg": f"{head}: source still open after cancellation and handle.aclose() "
+                                             f"(children advanced: {sorted(advanced)})"})
+    return {"violations": viols, "evals": max(1, evals), "sigs": sigs}
+
+
+def run_lru(case, stats):
+    c11 = case["c11"]
+    _, info = C11.execute(c11, rr_strategy())
+    n = info["suspensions"][0]
+    viols, sigs = [], []
+    for i in range(1, n + 1):
+        v, inf = C11.execute(c11, rr_strategy(), cancel_at=i)
+        stats["special_lru_cancellations"] += 1
+        sigs.append(("lru", str(c11), i))
+        if not inf.get("cancelled"):
+            viols.append({"key": "lru_cache/cancel-not-propagated", "msg": f"lru {c11} cancel@{i}"})
+        for key, msg in v:
+            viols.append({"key": key, "msg": f"lru {c11} cancel@{i}: {msg}"[:1200]})
+    return {"violations": viols, "evals": max(1, n), "sigs": sigs}
+
+
+def run_cached_property(case, stats):
+    c12 = case["c12"]
+    _, info = C12.execute(c12, rr_strategy())
+    n = info["suspensions"][0]
+    viols, sigs = [], []
+    for i in range(1, n + 1):
+        v, inf = C12.execute(c12, rr_strategy(), cancel_at=i)
+        stats["special_cached_property_cancellations"] += 1
+        sigs.append(("cp", str(c12), i))
+        if not inf.get("cancelled"):
+            viols.append({"key": "cached_property/cancel-not-propagated", "msg": f"cached_property {c12} cancel@{i}"})
+        for key, msg in v:
+            viols.append({"key": key, "msg": f"cached_property {c12} cancel@{i}: {msg}"[:1200]})
+    return {"violations": viols, "evals": max(1, n), "sigs": sigs}
+
+
+def run_exitstack(case, stats):
+    spec, body, susp = case["spec"], case["body"], case["susp"]
+    n = len(spec)
+
+    def nested(cancel_at, exc):
+        CTX.reset()
+        log = []
+        ents = [C14.mk_entry(k, b, i, log, susp, i) for i, (k, b) in enumerate(spec)]
+        body_exc = C14.E("body")
+
+        async def nest(i):
+            if i == n:
+                log.append(("body",))
+                if case["body_susp"]:
+                    await Suspend("body", case["body_susp"])
+                if body:
+                    raise body_exc
+                return
+            k, _ = spec[i]
+            e = ents[i]
+            if k == "acm":
+                async with e:
+                    await nest(i + 1)
+            elif k == "scm":
+                with e:
+                    await nest(i + 1)
+            elif k == "apush":
+                class W:
+                    async def __aenter__(self):
+                        pass
+
+                    async def __aexit__(self, *x):
+                        return await e(*x)
+
+                async with W():
+                    await nest(i + 1)
+            elif k == "spush":
+                class W:
+                    async def __aenter__(self):
+                        pass
+
+                    async def __aexit__(self, *x):
+                        return e(*x)
+
+                async with W():
+                    await nest(i + 1)
+            else:
+                class W:
+                    async def __aenter__(self):
+                        pass
+
+                    async def __aexit__(self, *x):
+                        e(i, kw=i)
+                        return False
+
+                async with W():
+                    await nest(i + 1)
+
+        try:
+            drive(nest(0), cancel_at=cancel_at, cancel_exc=exc)
+            res = ("ok",)
+        except C14.E as x:
+            res = ("raise", x.n, x is body_exc)
+        except Cancel as x:
+            res = ("cancel", x is exc)
+        return res, log, CTX.suspensions
+
+    def stacked(cancel_at, exc):
+        CTX.reset()
+        log = []
+        ents = [C14.mk_entry(k, b, i, log, susp, i) for i, (k, b) in enumerate(spec)]
+        body_exc = C14.E("body")
+
+        async def st():
+            async with A.ExitStack() as s:
+                for i, (k, _) in enumerate(spec):
+                    e = ents[i]
+                    if k in ("acm", "scm"):
+                        await s.enter_context(e)
+                    elif k in ("apush", "spush"):
+                        s.push(e)
+                    else:
+                        s.callback(e, i, kw=i)
+                log.append(("body",))
+                if case["body_susp"]:
+                    await Suspend("body", case["body_susp"])
+                if body:
+                    raise body_exc
+
+        try:
+            drive(st(), cancel_at=cancel_at, cancel_exc=exc)
+            res = ("ok",)
+        except C14.E as x:
+            res = ("raise", x.n, x is body_exc)
+        except Cancel as x:
+            res = ("cancel", x is exc)
+        return res, log, CTX.suspensions, list(CTX.foreign)
+
+    _, _, nsus = nested(None, None)
+    viols, sigs = [], []
+    for i in range(1, nsus + 1):
+        e1, e2 = Cancel(), Cancel()
+        r1, l1, _ = nested(i, e1)
+        r2, l2, _, foreign = stacked(i, e2)
+        stats["special_exitstack_cancellations"] += 1
+        sigs.append(("exitstack", str(case), i))
+        if foreign:
+            viols.append({"key": "ExitStack/foreign-suspension", "msg": foreign[0]})
+        if (r1, l1) != (r2, l2):
+            viols.append({"key": "ExitStack/cancellation-unwind-differs-from-nested-statements",
+                          "msg": f"stack {spec} body={body} susp={susp} cancel@{i}/{nsus}: nested {r1} {l1} vs ExitStack {r2} {l2}"[:1300]})
+    return {"violations": viols, "evals": max(1, nsus), "sigs": sigs}
+
+
+def run_scoped(case, stats):
+    c08 = case["c08"]
+    _, info = C08.execute(c08, susp=1)
+    viols, sigs = [], []
+    n = info["suspensions"]
+    for i in range(1, n + 1):
+        v, inf = C08.execute(c08, susp=1, cancel_at=i)
+        stats["special_scoped_iter_cancellations"] += 1
+        sigs.append(("scoped", str(c08), i))
+        if inf["exit"] != "cancel":
+            viols.append({"key": "scoped_iter/cancel-not-propagated", "msg": f"scoped {c08} cancel@{i}: exit {inf['exit']}"})
+        viols.extend(v)
+    return {"violations": viols, "evals": max(1, n), "sigs": sigs}
 
 
 def run_case(case, stats):
-    raise NotImplementedError(case["kind"])
+    return {"tee": run_tee, "lru": run_lru, "cached_property": run_cached_property, "exitstack": run_exitstack,
+            "scoped": run_scoped}[case["kind"]](case, stats)
